@@ -432,6 +432,28 @@ func main() {
 // function (it generates the closures of the template), before and after the patch.
 // want i*: entry:20 into:20 into:20 into:6 into:6 into:7 into:8 into:8 into:9 into:9 into:10 into:9 into:9 into:14 into:8 into:8 into:8 into:9 into:9 into:12 into:12 into:11 into:9 into:14 into:8 into:8 into:8 into:8 into:16 into:20 into:20 into:21 into:21 into:21 into:6 into:6 into:7 into:8 into:8 into:9 into:9 into:10 into:9 into:9 into:14 into:8 into:8 into:8 into:8 into:16 into:21 into:21 into:22 into:22 into:22 into:6 into:6 into:7 into:8 into:8 into:9 into:9 into:12 into:12 into:11 into:9 into:14 into:8 into:8 into:8 into:8 into:16 into:22 into:22 into:19
 `,
+	// a loop and same-generator arms inside a function literal (generated while compiling)
+	`package main
+
+import "fmt"
+
+func main() {
+	x := 1
+	f := func(d int) int {
+		s := 0
+		for s < d {
+			s++
+		}
+		if s > 2 {
+			x = 5
+		} else {
+			x = 6
+		}
+		return x + s
+	}
+	fmt.Println(f(2), f(3), x)
+}
+`,
 }
 
 func fixedProg(src string) progT {
